@@ -15,6 +15,7 @@ PROPERTIES = {}
 # harness files that use helpers living in another module's harness file
 MODULE_NEEDS = {
     "vanilla_header": ["normalized_string"],
+    "tbc_header": ["normalized_string"],
 }
 
 
@@ -103,3 +104,69 @@ H("C07", "vanilla_header", "c07_init", timeout=300, oracle_features=["cap128", "
   inputs="session key [u8;40] any, name any (1..16), seeds any",
   asserts="halves obtained through the public constructors start at (key = raw session key, index 0, previous 0)",
   bounds="-", assumes=[HASH_ASSUME])
+
+# ------------------------------------------------------------------------------------------------
+# C08
+# ------------------------------------------------------------------------------------------------
+P("C08",
+  outside=["HMAC-SHA1 itself (uninterpreted); single calls longer than 260 bytes are covered by the step lemma + induction argument only"],
+  assumptions=[HASH_ASSUME, "induction over the one-step / one-call lemmas extends the bounded harnesses to streams of any length"])
+H("C08", "tbc_header", "c08_step", timeout=300,
+  encodes=["tbc_header::encrypt::encrypt", "tbc_header::decrypt::decrypt", "EncrypterHalf::encrypt", "DecrypterHalf::decrypt"],
+  inputs="key [u8;20], index<20, previous u8, byte u8: all any",
+  asserts="one-byte call == recurrence over the 20-byte key (position modulo 20); decrypt is the exact inverse with the same next state; empty calls change nothing",
+  bounds="one step from an arbitrary state (inductive)", assumes=[])
+H("C08", "tbc_header", "c08_call_enc", timeout=900,
+  encodes=["tbc_header::encrypt::encrypt"], inputs="key, index<20, previous: any; n: any <= 48; data any",
+  asserts="an n-byte encrypt call equals n spec steps; bytes beyond the slice untouched", bounds="n <= 48 (symbolic); unwind 50", assumes=[])
+H("C08", "tbc_header", "c08_call_dec", timeout=900,
+  encodes=["tbc_header::decrypt::decrypt"], inputs="key, index<20, previous: any; n: any <= 48; data any",
+  asserts="an n-byte decrypt call equals n spec steps; bytes beyond the slice untouched", bounds="n <= 48 (symbolic); unwind 50", assumes=[])
+H("C08", "tbc_header", "c08_call_long", timeout=1500,
+  encodes=["tbc_header::encrypt::encrypt", "tbc_header::decrypt::decrypt"],
+  inputs="key, previous, data [u8;260]: any; index = 19; n = 260",
+  asserts="one 260-byte call equals 260 spec steps on both halves incl. the final position (index + length >= 256)",
+  bounds="n = 260 exactly, starting position 19; unwind 262", assumes=[])
+H("C08", "tbc_header", "c08_split_call", timeout=900,
+  encodes=["EncrypterHalf::encrypt", "DecrypterHalf::decrypt"], inputs="state any; n <= 8, cut, cut2 <= n any; data any",
+  asserts="two consecutive calls equal one call (incl. empty pieces); paired halves round-trip under different chunking and stay paired",
+  bounds="n <= 8; unwind 22", assumes=[])
+H("C08", "tbc_header", "c08_init", timeout=900, oracle_features=["cap128", "q16"],
+  encodes=["tbc_header::encrypt::EncrypterHalf::new", "tbc_header::decrypt::DecrypterHalf::new", "tbc_header::HeaderCrypto::new", "ProofSeed::into_client_header_crypto", "ProofSeed::into_server_header_crypto"],
+  inputs="session key [u8;40], name, seeds, proof: any",
+  asserts="both halves' key == HMAC(16-byte TBC seed, 40-byte session key) (one query each, same query), index 0, previous 0; also through the public constructors",
+  bounds="-", assumes=[HASH_ASSUME])
+
+# ------------------------------------------------------------------------------------------------
+# C13
+# ------------------------------------------------------------------------------------------------
+P("C13",
+  outside=["strings longer than 24 bytes (thorough) / 17 bytes (quick): only len() is inspected for them, shown for 17..24",
+           "core::str::from_utf8 is replaced by an equivalent byte-loop validator (Unicode table 3-7); core's own validator is not executed"],
+  assumptions=["verif_oracle::from_utf8_model has the same accept set as core::str::from_utf8 (validated in selftest)"])
+H("C13", "normalized_string", "c13_accept", timeout=1500, tiers=["quick"],
+  encodes=["NormalizedString::new", "NormalizedString::as_ref"],
+  inputs="bytes [u8;17] any, len <= 17 any, assumed well-formed UTF-8 (every scalar value at every position)",
+  asserts="Ok <=> 1<=len<=16 and all bytes in 0x20..=0x7E; stored text == input with a-z upper-cased, zero padded; as_ref()==that; StringTooLong <=> len==0 or len>16; else CharacterNotAllowed(first offending scalar); no panic",
+  bounds="all UTF-8 strings of <= 17 bytes; unwind 19", assumes=["from_utf8 stub"])
+H("C13", "normalized_string", "c13_accept_24", timeout=5400, tiers=["thorough"],
+  encodes=["NormalizedString::new", "NormalizedString::as_ref"],
+  inputs="bytes [u8;24] any, len <= 24 any, assumed well-formed UTF-8",
+  asserts="as c13_accept", bounds="all UTF-8 strings of <= 24 bytes; unwind 26", assumes=["from_utf8 stub"])
+H("C13", "normalized_string", "c13_constructors", timeout=900,
+  encodes=["NormalizedString::from_str", "NormalizedString::from_string", "TryFrom<&str>", "TryFrom<String>"],
+  inputs="all UTF-8 strings of <= 4 bytes, plus one 17-byte ASCII string",
+  asserts="all five constructors return the same Ok value / the same error kind and character",
+  bounds="<= 4 bytes (the constructors delegate; the length is irrelevant to delegation); unwind 19", assumes=["from_utf8 stub"])
+H("C13", "normalized_string", "c13_case", timeout=1500,
+  encodes=["NormalizedString::new", "NormalizedString::as_ref", "PartialEq"],
+  inputs="every accepted string (1..16 printable bytes) and every case variant (mask of 16 bits)",
+  asserts="new(s) == new(case variant of s); new(new(s).as_ref()) == new(s)", bounds="full; unwind 18", assumes=["from_utf8 stub"])
+H("C13", "normalized_string", "c13_relations", timeout=1500,
+  encodes=["derive(PartialEq, Eq, Ord, PartialOrd, Hash) for NormalizedString"],
+  inputs="two arbitrary values satisfying the representation invariant",
+  asserts="==, cmp, partial_cmp agree with lexicographic comparison of the normalised texts; equal texts feed identical bytes to a Hasher",
+  bounds="full; unwind 50", assumes=["from_utf8 stub"])
+H("C13", "normalized_string", "c13_display", timeout=1500,
+  encodes=["Display for NormalizedString"], inputs="arbitrary valid value",
+  asserts="Display writes exactly the normalised text", bounds="full; unwind 18", assumes=["from_utf8 stub"])
